@@ -511,8 +511,13 @@ func (c *ECurve) Add(p, q EPoint) EPoint {
 	ny := c.m(new(big.Int).Sub(y1y2, new(big.Int).Mul(c.A, x1x2)))
 	dx := c.m(new(big.Int).Add(big.NewInt(1), dxy))
 	dy := c.m(new(big.Int).Sub(big.NewInt(1), dxy))
-	x3 := c.m(new(big.Int).Mul(nx, new(big.Int).ModInverse(dx, c.P)))
-	y3 := c.m(new(big.Int).Mul(ny, new(big.Int).ModInverse(dy, c.P)))
+	// one inversion for both denominators: 1/dx = dy/(dx dy), 1/dy = dx/(dx dy)
+	inv := new(big.Int).ModInverse(c.m(new(big.Int).Mul(dx, dy)), c.P)
+	if inv == nil { // a zero denominator (operands outside the curve's complete domain): the defining formula divides by zero
+		inv = new(big.Int)
+	}
+	x3 := c.m(new(big.Int).Mul(c.m(new(big.Int).Mul(nx, dy)), inv))
+	y3 := c.m(new(big.Int).Mul(c.m(new(big.Int).Mul(ny, dx)), inv))
 	return EPoint{x3, y3}
 }
 
